@@ -67,7 +67,7 @@ def catalogue(tier):
                 sopts.append({"min_len": mn, "max_len": mx, "regex": rx, "choices": ch, "transform_case": case, "transform_strip": strip})
     cat.append(("Str", [_clean(o) for o in sopts], STR_VALUES + WRONG))
     # ---- numbers
-    nb = [None, -1, 0, 5, 10] if not thorough else [None, -1, 0, 0.5, 5, 10, 2 ** 70]
+    nb = [None, -1, -0.5, 0, 0.5, 5, 10] if not thorough else [None, -1, -0.5, 0, 0.5, 5, 9.5, 10, 2 ** 70]
     ints = [-2, -1, 0, 1, 4, 5, 6, 10, 11, 2 ** 70, F(1.5), F(-0.5), F(5.0), F(10.9), F(-1.0), F("inf"), F("-inf"),
             F("nan"), F(1e300), "5", "-1", " 7 ", "1.5", "abc", "", "0x10", "1e3", "\u0661", "5\n", "+5", "1_0", "10", "11",
             "-2", "nan", "inf", True, False]
@@ -198,6 +198,21 @@ def container_catalogue(tier):
                          "val": specs[name], "o": _clean({"required": req})}, dvals))
         out.append(("Dict[Str,%s]@v" % name, {"k": "Dict", "key": {"k": "Str", "o": {"transform_strip": True}} if name is not None else None,
                                               "val": specs[name], "o": {"validator": "identity"}}, dvals))
+    # typed containers of typed containers whose leaves have a non-trivial on-disk form
+    nest = [
+        ("List[List[Bytes64]]", {"k": "List", "item": {"k": "List", "item": specs["Bytes64"]}, "o": {}},
+         [[[Y(b"\xde\xad")]], [["cd"], [Y(b"ab"), "ef"]], [[]], [], [[5]], [5]]),
+        ("List[List[BytesHex]]", {"k": "List", "item": {"k": "List", "item": specs["BytesHex"]}, "o": {}}, [[[Y(b"\xde\xad"), Y(b"dead")]], [[Y(b"ab")], []]]),
+        ("List[List[Challenge]]", {"k": "List", "item": {"k": "List", "item": specs["Challenge"]}, "o": {}}, [[["pw"]], [["pw", Y(b"pw2")], ["x"]], [[5]]]),
+        ("List[List[Secure]]", {"k": "List", "item": {"k": "List", "item": specs["Secure"]}, "o": {}}, [[["s3cret"]], [["s3cret", "t0p"], []]]),
+        ("Dict[Str,List[BytesHex]]", {"k": "Dict", "key": {"k": "Str"}, "val": {"k": "List", "item": specs["BytesHex"]}, "o": {}},
+         [D(("k", [Y(b"\xde\xad")])), D(("k", [Y(b"ab"), "cd"]), ("j", [])), D(("k", [5]))]),
+        ("List[Dict[Str,Bytes64]]", {"k": "List", "item": {"k": "Dict", "key": {"k": "Str"}, "val": specs["Bytes64"]}, "o": {}},
+         [[D(("k", Y(b"\xff\x00")))], [D(("k", "cd")), D()], [D(("k", 5))]]),
+        ("List[List[Int09]]", {"k": "List", "item": {"k": "List", "item": specs["Int09"]}, "o": {}}, [[[1, "2"]], [[F(3.0)], []], [[10]], [["x"]]]),
+    ]
+    for name, spec, vals in nest:
+        out.append((name, spec, vals + WRONG[:6]))
     # key fields whose on-disk form is a string (bytes as hex / base64) stay inside the formats' string-keyed domain
     for enc in ("hex", "base64"):
         kspec = {"k": "Bytes", "o": {"encoding": enc}}
